@@ -390,8 +390,9 @@ pub fn do_navigate_command_string(mathml: Element, nav_command: &'static str) ->
             // To prevent to infinite loop, we limit the number of tries
             const LOOP_LIMIT: usize = 3;
             let mut cumulative_speech = String::with_capacity(120);
+            let n_positions_at_start = nav_state.position_stack.len();     // what is on the stack now must not be touched by pop_stack()
             for loop_count in 0..LOOP_LIMIT {
-                match apply_navigation_rules(mathml, nav_command, &rules, &mut rules_with_context, &mut nav_state, loop_count) {
+                match apply_navigation_rules(mathml, nav_command, &rules, &mut rules_with_context, &mut nav_state, loop_count, n_positions_at_start) {
                     Ok( (speech, done)) => {
                         cumulative_speech = cumulative_speech + if loop_count==0 {""} else {" "} + speech.trim();
                         if done {
@@ -425,7 +426,7 @@ pub fn do_navigate_command_string(mathml: Element, nav_command: &'static str) ->
 
     fn apply_navigation_rules<'c, 'm:'c>(mathml: Element<'m>, nav_command: &'static str,
             rules: &Ref<SpeechRules>, rules_with_context: &mut SpeechRulesWithContext<'c, '_, 'm>, nav_state: &mut RefMut<NavigationState>,
-            loop_count: usize) -> Result<(String, bool)> {
+            loop_count: usize, n_positions_at_start: usize) -> Result<(String, bool)> {
         let context = rules_with_context.get_context();
         context.set_variable("MatchCounter", loop_count as f64);
 
@@ -496,38 +497,28 @@ pub fn do_navigate_command_string(mathml: Element, nav_command: &'static str) ->
                 // try again in loop
                 return Ok( (speech, false));
             } else {
-                pop_stack(nav_state, loop_count);
+                pop_stack(nav_state, loop_count, n_positions_at_start);
                 // debug!("returning: '{}'", speech.clone() + " " + &node_speech);
                 return Ok( (speech + " " + &node_speech, true) );
             }
         } else {
-            pop_stack(nav_state, loop_count);
+            pop_stack(nav_state, loop_count, n_positions_at_start);
             return Ok( (speech, true) );
         };
     }
 
-    fn pop_stack(nav_state: &mut NavigationState, count: usize) {
+    fn pop_stack(nav_state: &mut NavigationState, count: usize, n_positions_at_start: usize) {
         // save the final state and pop the intermediate states that did nothing
-        if count == 0 {
+        // Note: a retry doesn't always push a position (e.g., it couldn't move any further), so only the entries that were
+        //   pushed by this command are candidates -- the earlier entries are needed for undoing (MoveLastLocation)
+        if count == 0 || nav_state.position_stack.len() <= n_positions_at_start + 1 {
             return;
         }
 
         let (top_position, top_command) = nav_state.pop().unwrap();
-        let mut count = count-1;
-        loop {
-            // debug!("  ... loop count={}", count);
-            let nav_command = match nav_state.top() {
-                None => break,      // nothing (more) to pop
-                Some( (_, nav_command) ) => nav_command,
-            };
-            if (nav_command.starts_with("Move") || nav_command.starts_with("Zoom")) && nav_command != "MoveLastLocation" {
-                nav_state.pop();
-            }
-            if count == 0 {
-                break;
-            };
-            count -= 1;
-        };
+        while nav_state.position_stack.len() > n_positions_at_start {
+            nav_state.pop();
+        }
         nav_state.push(top_position, top_command);
     }
 }
